@@ -210,6 +210,15 @@ def expectedDispatchCacheFill : List String :=
   ["lookup:dispatch=_DISPATCH_CACHE.get(cls)", "if:dispatch is None", "then:dispatch = _build_dispatch(cls)",
    "then:_DISPATCH_CACHE[cls] = dispatch"]
 
+/-- the audited sort calls of the set-ordering modules: none has a `key=` — each orders the elements themselves (node names in
+    `tsort`, (text, expression) pairs with distinct texts in `uniq_sort`), i.e. by a total order in which distinct elements never
+    tie; that is the hypothesis of `sorted_perm_invariant` -/
+def expectedSortCalls : List (String × String × String × String × String) := [
+  ("sqlglot/helper.py", "tsort", "sorted(current)", "-", "-"),
+  ("sqlglot/helper.py", "merge_ranges", "sorted(ranges)", "-", "-"),
+  ("sqlglot/optimizer/simplify.py", "Simplifier.uniq_sort", "sorted(arr)", "-", "-")
+]
+
 /-- explicit snapshot (NOT regenerated) of the per-call part of Generator.__init__ / Generator.generate before the repair
     "Generator.generate restarts the generated-alias counter": kept only as a witness of why the reset is needed -/
 def preFixGeneratorInit : Assigns := [("unsupported_messages", "[]"), ("_next_name", "name_sequence('_t')")]
